@@ -142,6 +142,19 @@ def check_layout(case):
             b = d[:i] >> d[i:j].bubble() >> d[j:]
             layout_checks(b, structure=b.open_bubbles())
             labels.append("bubble")
+            # bubbles declared with another domain or codomain than their
+            # inside (fewer wires, more wires, none at all)
+            inner = d[i:j]
+            for kw in ({"cod": inner.cod[:1]}, {"cod": inner.cod @ inner.cod},
+                       {"cod": inner.cod[:0]}, {"dom": inner.dom[:1]},
+                       {"dom": inner.dom @ inner.dom[:1]},
+                       {"dom": inner.dom[:0], "cod": inner.cod[:0]}):
+                if cut[1] % 2 and all(len(t) == len(getattr(inner, k))
+                                      for k, t in kw.items()):
+                    continue
+                b = inner.bubble(**kw)
+                layout_checks(b, structure=b.open_bubbles())
+            labels.append("retyped-bubble")
         # a bubble around one box and some of the wires next to it, with
         # other wires passing by on either side
         k = cut[0] % len(d)
